@@ -151,7 +151,7 @@ func aggTraceGen(r *Rand, tier string) []string {
 	// one of those renders, and the final one, must show exactly what has been sampled
 	n := 2
 	if thorough {
-		n = 8
+		n = 12
 	}
 	for i := 0; i < n; i++ {
 		c := base(Pick(r, []int{14, 18}))
@@ -162,7 +162,7 @@ func aggTraceGen(r *Rand, tier string) []string {
 	// (a) slow / stalled readers: the 100ms ticker renders while input is still arriving
 	n = 5
 	if thorough {
-		n = 40
+		n = 100
 	}
 	for i := 0; i < n; i++ {
 		c := base(Pick(r, []int{0, 1, 5, 40, 200, 600}))
@@ -177,7 +177,7 @@ func aggTraceGen(r *Rand, tier string) []string {
 	// files through the semaphore into the loop
 	n = 2
 	if thorough {
-		n = 12
+		n = 30
 	}
 	for i := 0; i < n; i++ {
 		c := base(0)
@@ -192,7 +192,7 @@ func aggTraceGen(r *Rand, tier string) []string {
 	// (b) slow render, the input ends while the periodic render is running: the final render must wait
 	n = 2
 	if thorough {
-		n = 10
+		n = 20
 	}
 	for i := 0; i < n; i++ {
 		c := base(Pick(r, []int{3, 20}))
@@ -205,7 +205,7 @@ func aggTraceGen(r *Rand, tier string) []string {
 	// with a busy consumer, also on one P; every render's matched total must cover the displayed counts
 	n = 3
 	if thorough {
-		n = 14
+		n = 40
 	}
 	for i := 0; i < n; i++ {
 		c := base(Pick(r, []int{30, 60, 120}))
